@@ -448,9 +448,9 @@ class ReactionQueryReader(object):
             self.electronbalance += [0]*len(molquery.atom_names)
             self.atom_belonging_mol += [molquery.name]*len(molquery.atom_names)
         elif tree[0][0] == 'ReactantGroup':
-            self.ReadReactantGroup(tree[1][1:], reactionquery)
+            self.ReadReactantGroup(tree[0][1:], reactionquery)
         elif tree[0][0] == 'Duplicates':
-            self.ReadDuplicates(tree[1][1:], reactionquery)
+            self.ReadDuplicates(tree[0][1:], reactionquery)
         if len(tree) == 2:
             self.ReadReactants(tree[1][1:], reactionquery)
 
